@@ -2,6 +2,7 @@
 from __future__ import annotations
 
 import ast
+import re as _re
 import itertools
 import re
 
@@ -142,10 +143,22 @@ def check(program: Program, run: Run) -> None:
     so = program.cls("_SetOperation")
     for lim, off in itertools.product((0, 1), (0, 1)):
         attrs = {"_limit": Obj(vw, {}, "_limit") if lim else Const(None), "_offset": Obj(vw, {}, "_offset") if off else Const(None)}
-        a, _ = render(program, so, "_limit_sql", attrs=attrs, ctx=CtxV.incoming(False))
-        b, _ = render(program, so, "_offset_sql", attrs=attrs, ctx=CtxV.incoming(False))
-        got = "".join(flatten(a)) + "".join(flatten(b))
-        consults = "ctx.dialect" in show(a, -20) + show(b, -20)
+        if so.resolve("_limit_sql") is not None and so.resolve("_offset_sql") is not None:
+            a, _ = render(program, so, "_limit_sql", attrs=attrs, ctx=CtxV.incoming(False))
+            b, _ = render(program, so, "_offset_sql", attrs=attrs, ctx=CtxV.incoming(False))
+            got = "".join(flatten(a)) + "".join(flatten(b))
+            consults = "ctx.dialect" in show(a, -20) + show(b, -20)
+        else:
+            # the two clause helpers were folded into something else: take the tail of the whole rendering (no further
+            # operands, no ORDER BY) from the first pagination slot / keyword on
+            whole, _ = render(program, so, "get_sql", attrs={**attrs, "_set_operation": ListV((), "list"), "_orderbys": ListV((), "list"), "alias": Const(None)},
+                              ctx=CtxV.incoming(False).with_(subquery=Const(False), with_alias=Const(False)))
+            texts = flatten(whole)
+            if len(texts) != 1:
+                raise AnalysisError(f"unsupported construct: _SetOperation.get_sql does not fold on (limit, offset) presence: {len(texts)} alternatives")
+            m_ = _re.search(r" (LIMIT|OFFSET|FETCH) ", texts[0])
+            got = texts[0][m_.start():].rstrip(")") if m_ else ""
+            consults = "ctx.dialect" in show(whole, -30)
         for dialect in ("generic", "MYSQL", "SQLITE", "POSTGRESQL", "ORACLE", "MSSQL"):
             want = REF[dialect][(lim, off)]
             if want is not None:
@@ -155,7 +168,7 @@ def check(program: Program, run: Run) -> None:
             run.ob("C09 set-operation pagination matches the base query's dialect grammar", f"_SetOperation[{dialect}]:limit={lim},offset={off}", ok, detail=f"got {got!r} want {want!r}")
             if not ok:
                 run.finding(f"C09/setop-grammar:{dialect}:limit={'set' if lim else 'absent'},offset={'set' if off else 'absent'}",
-                            f"_SetOperation renders {got!r} whatever the dialect of its base query; {dialect} requires {want!r}", where=so.resolve('_limit_sql').loc(), rule="cell grammar")
+                            f"_SetOperation renders {got!r} whatever the dialect of its base query; {dialect} requires {want!r}", where=(so.resolve('_limit_sql') or so.resolve('get_sql')).loc(), rule="cell grammar")
     # order inside _SetOperation.get_sql: limit then offset
     run.analysed = {"cells": cells, "builder_classes": len(BUILDER_CLASSES)}
     if cells < 60:
